@@ -53,7 +53,7 @@ def path(c, job):
     import robotpy_ext.misc.precise_delay as pd
     import wpilib
 
-    pd.int = sx.sym_int
+    sx.install_shadows()
     env = Env(c)
     wpilib.ENV = env
     kind = job["kind"]
